@@ -569,7 +569,7 @@ impl Part for FrontPart {
     fn runs(&self, tier: Tier) -> u64 {
         match tier {
             Tier::Quick => 20_000,
-            Tier::Thorough => 1_000_000,
+            Tier::Thorough => 600_000,
         }
     }
     fn block(&self, _t: Tier) -> u64 {
